@@ -194,14 +194,18 @@ def ob_image(which, timeout=60):
             s_.stores = []; s_.other_writes = []
 
         def acc_attr(s_, x, st, name):
-            if name == 'keys':
-                return ('accmethod', s_, 'keys')
+            if name in ('keys', 'items'):
+                return ('accmethod', s_, name)
             raise Unsupported('operator attribute %s' % name)
 
         def acc_loop(s_, x, st, s, env):
-            if not isinstance(s.target, ast.Name):
+            # one generic entry; `for k in op` / `op.keys()` binds the key, `op.items()` the (key, value) pair
+            if getattr(s_, 'iter_kind', 'keys') == 'items':
+                x.assign(s.target, T([K, V if not s_.stores else s_.stores[-1][1]]), env, st)
+            elif isinstance(s.target, ast.Name):
+                env[s.target.id] = K
+            else:
                 raise Unsupported('loop target')
-            env[s.target.id] = K
             x.block(s.body, env, st)
 
         def acc_index(s_, x, st, key):
@@ -232,10 +236,18 @@ def ob_image(which, timeout=60):
         'self.get_deformation': getdef,
         'name:deformation_name': lambda x, st: E.const('NAME'),
         'name:kwargs': lambda x, st: kwargs_d,
+        # the same two methods reached through any other name bound to the code object (a helper's parameter)
+        ('method', 'code', und): lambda x, st, o, a, k: (used.append(a) or source),
+        ('method', 'code', 'get_deformation'): lambda x, st, o, a, k: getdef(x, st, a, k),
     }
+    selfo = Obj(None, {}, 'code')
+    # free names of the closure: sibling local helpers defined in deform (e.g. one shared relabelling helper) and the enclosing `self`
+    for n in deform.node.body:
+        if isinstance(n, ast.FunctionDef) and n.name != which:
+            intr['name:' + n.name] = (lambda x_, st_, n=n: FuncSrc(m.path, 'StabilizerCode.deform.<locals>.' + n.name, n, None, m))
+    intr.setdefault('name:self', lambda x_, st_: selfo)
     x = X(m, intr)
     f = FuncSrc(m.path, 'StabilizerCode.deform.<locals>.' + which, node, None, m)
-    selfo = Obj(None, {}, 'code')
     args = [selfo] + ([T([z3.Int('l0'), z3.Int('l1'), z3.Int('l2')])] if which == 'get_stabilizer' else [])
     st, ret = x.run(f, args, {})
     problems = []
